@@ -16,6 +16,8 @@ func init() { register("C11", checkC11) }
 
 func checkC11(c *Ctx) {
 	defer c11EscapeFastPath(c)
+	defer c12AppendNewline(c) // generated attributes and blocks start on a line of their own
+	defer runeTruncateRule(c, "escape.domain", "hclwrite", "hclsyntax")
 	defer unicodeEscapeRule(c, "escape.inverse") // what the writer emits as \u / \U must be accepted by the reader
 	c11EscapeTables(c)
 	c11BareKeys(c)
